@@ -156,7 +156,7 @@ class Builder:
             builder.scopes.append(scope)
             try:
                 inits = [scope[l].store(pt.Int(0) if sd.get("local_types", {}).get(l, "u") == "u" else pt.Bytes(""))
-                         for l in sd.get("locals", [])]
+                         for l in sd.get("locals", [])] if sd.get("init_locals", True) else []
                 body = builder.b(sd["body"])
                 if inits:
                     return pt.Seq(*inits, body)
